@@ -92,6 +92,42 @@ Definition should_discard (p : pkt) : bool :=
   || (negb (p_auth p) && p_auth_hdr p && negb (p_auth_type p =? 0))
   || p_auth p || p_poll p || p_final p || negb (p_echo_rx p =? 0) || p_demand p.
 
+(** RFC 5880 section 6.8.6, the validation rules applied before the state update,
+    for a system on which authentication is not in use ("If the A bit is set and
+    no authentication is in use, the packet MUST be discarded"), without the
+    session lookup ... *)
+Definition rfc_invalid (p : pkt) : bool :=
+  negb (p_version p =? 1)
+  || (negb (p_auth p) && (p_len p <? 24))
+  || (p_auth p && (p_len p <? 26))
+  || (p_mult p =? 0)
+  || p_multipoint p
+  || (p_my p =? 0)
+  || ((p_your p =? 0) && negb (st_eqb (p_state p) AdminDown) && negb (st_eqb (p_state p) Down))
+  || p_auth p.
+(** ... and the session lookup: "If the Your Discriminator field is nonzero, it MUST be
+    used to select the session ... If no session is found, the packet MUST be discarded."
+    A scion session is bound to one link; [ld] is its local discriminator. *)
+Definition rfc_no_session (ld : N) (p : pkt) : bool :=
+  negb (p_your p =? 0) && negb (p_your p =? ld).
+Definition rfc_discard (ld : N) (p : pkt) : bool := rfc_invalid p || rfc_no_session ld p.
+(** features scion does not implement; packets using them are dropped on top of the RFC rules
+    (poll sequences, echo function, demand mode; an authentication header without the A bit is
+    a decoding artefact of gopacket) *)
+Definition unsupported (p : pkt) : bool :=
+  (negb (p_auth p) && p_auth_hdr p && negb (p_auth_type p =? 0))
+  || p_poll p || p_final p || negb (p_echo_rx p =? 0) || p_demand p.
+
+(** Detection time armed by an accepted packet (session.go, Run):
+    [msg.DetectMultiplier * max(s.RequiredMinRxInterval, msg.DesiredMinTxInterval)], microseconds. *)
+Definition detect_time (req_rx_us : N) (p : pkt) : N := p_mult p * N.max req_rx_us (p_des_tx p).
+(** RFC 5880 section 6.8.4 (asynchronous mode): "the Detection Time calculated in the local
+    system is equal to the value of Detect Mult received from the remote system, multiplied by
+    the agreed transmit interval of the remote system (the greater of bfd.RequiredMinRxInterval
+    and the last received Desired Min TX Interval)". *)
+Definition rfc_detect_time (remote_mult local_req_rx remote_des_tx : N) : N :=
+  remote_mult * (if local_req_rx <? remote_des_tx then remote_des_tx else local_req_rx).
+
 (** The session as seen from outside: local state and (learned) remote discriminator. *)
 Record sess := { local : st; rdisc : N }.
 
@@ -122,6 +158,13 @@ Definition run (s : sess) (ops : list op) : sess := fold_left step ops s.
 Definition rx_admindown (o : op) : bool :=
   match o with Recv p => negb (should_discard p) && st_eqb (p_state p) AdminDown | Timeout => false end.
 Definition no_rx_admindown (ops : list op) : bool := forallb (fun o => negb (rx_admindown o)) ops.
+
+(** second known-finding class (C16/your-discriminator-unchecked): an accepted packet whose
+    non-zero Your Discriminator is not the session's local discriminator [ld] *)
+Definition rx_wrong_your (ld : N) (o : op) : bool :=
+  match o with Recv p => negb (should_discard p) && rfc_no_session ld p | Timeout => false end.
+Definition no_rx_wrong_your (ld : N) (ops : list op) : bool :=
+  forallb (fun o => negb (rx_wrong_your ld o)) ops.
 
 (** states after every op *)
 Fixpoint trace (s : sess) (ops : list op) : list sess :=
@@ -195,8 +238,13 @@ Definition pkt_of (f : list N) : option pkt :=
 Inductive case :=
 | CTrans (s e impl : N)                      (* transition table entry; impl = 255 for panic *)
 | CDiscard (f : list N) (impl : bool)        (* shouldDiscard on one packet *)
-| CHist (rd0 : N) (ops : list (option (list N)))   (* None = detection timeout *)
-        (impl : list (N * N)).               (* (state, remote discriminator) after each op *)
+| CHist (ld rd0 : N) (ops : list (option (list N)))   (* None = detection timeout; ld = local discriminator *)
+        (impl : list (N * N))                (* (state, remote discriminator) after each op *)
+| CDetect (req_rx_us : N) (f : list N) (hi lo : N).
+   (* one accepted packet [f] that leaves the session in Init/Up, then silence. Observed on the real
+      session, microseconds: [hi] = from just before the packet was handed over until Down was first
+      seen (an upper bound of the real detection time); [lo] = from just after it was accepted until
+      the last moment the session was seen not Down (a lower bound) *)
 
 Definition ops_of (l : list (option (list N))) : option (list op) :=
   fold_right (fun o acc =>
@@ -211,7 +259,7 @@ Definition obs_eqb (a b : N * N) := N.eqb (fst a) (fst b) && N.eqb (snd a) (snd 
 
 (** the property oracle on an observed history: every accepted reception follows
     RFC 6.8.6, every timeout follows 6.8.4, and AdminDown is never entered *)
-Fixpoint hist_ok (prev : N) (ops : list op) (obs : list (N * N)) : bool :=
+Fixpoint hist_ok (ld prev : N) (ops : list op) (obs : list (N * N)) : bool :=
   match ops, obs with
   | [], [] => true
   | o :: t, (s', _) :: t' =>
@@ -219,13 +267,18 @@ Fixpoint hist_ok (prev : N) (ops : list op) (obs : list (N * N)) : bool :=
     | Some p, Some n =>
       negb (st_eqb n AdminDown) &&
       match o with
-      | Recv k => if should_discard k then st_eqb n p else st_eqb n (rfc_recv p (p_state k))
+      | Recv k => if should_discard k || rfc_no_session ld k then st_eqb n p
+                  else st_eqb n (rfc_recv p (p_state k))
       | Timeout => st_eqb n (rfc_timer p)
-      end && hist_ok s' t t'
+      end && hist_ok ld s' t t'
     | _, _ => false
     end
   | _, _ => false
   end.
+
+(** tolerances of the timing observation: 1 ms of clock granularity below, 3 s of scheduling
+    delay above (the check runs on loaded machines) *)
+Definition detect_ok (t hi lo : N) : bool := (t <=? hi + 1000) && (lo <=? t + 3000000).
 
 Definition check (c : case) : N :=
   match c with
@@ -239,11 +292,19 @@ Definition check (c : case) : N :=
     | Some p => Check.verdict (Bool.eqb (should_discard p) impl) true
     | None => 1
     end
-  | CHist rd0 l impl =>
+  | CHist ld rd0 l impl =>
     match ops_of l with
     | Some ops =>
       Check.verdict (list_eqb obs_eqb (map obs_of (trace (init rd0) ops)) impl)
-                    (hist_ok (st_code Down) ops impl)
+                    (hist_ok ld (st_code Down) ops impl)
+    | None => 1
+    end
+  | CDetect r f hi lo =>
+    match pkt_of f with
+    | Some p =>
+      if should_discard p || st_eqb (local (step (init 0) (Recv p))) Down then 1 (* not a detection case *)
+      else Check.verdict (detect_ok (detect_time r p) hi lo)
+                         (detect_ok (rfc_detect_time (p_mult p) r (p_des_tx p)) hi lo)
     | None => 1
     end
   end.
@@ -253,7 +314,8 @@ Definition diag (c : case) : list (N * N) :=
   | CTrans s e _ => match st_of_code s, ev_of_code e with
                     | Some s', Some e' => [(st_code (transition s' e'), 0)] | _, _ => [(255, 0)] end
   | CDiscard f _ => match pkt_of f with Some p => [((if should_discard p then 1 else 0), 0)] | None => [] end
-  | CHist rd0 l _ => match ops_of l with Some ops => map obs_of (trace (init rd0) ops) | None => [] end
+  | CHist _ rd0 l _ => match ops_of l with Some ops => map obs_of (trace (init rd0) ops) | None => [] end
+  | CDetect r f _ _ => match pkt_of f with Some p => [(detect_time r p, 0)] | None => [] end
   end.
 
 End BFD.
